@@ -826,6 +826,12 @@ package server
 //@   call Add requires [cache-what-was-stored] unbox(arg1, "string") == str(cursorKey) && unbox(arg2, "int64") == offset
 //@   ensures [stored] result == nil ==> ghost.curStored[ghost.curKey] == offset
 // GetCursor answers with the stored offset - from the cache or from the log - and fills the cache consistently
+// The cursors stream is the durable cursor store: it is compacted by key and must NOT be subject to the server-wide
+// retention limits (default: 7 days) - a cursor that is not updated for that long would be deleted and fetched as -1
+//@ func (*cursorManager).Initialize serves C11
+//@   assumes c != nil && c.config != nil
+//@   call CreateStream requires [cursors-are-exempt-from-retention] arg2 != nil && arg2.Stream != nil && arg2.Stream.Config != nil && arg2.Stream.Config.RetentionMaxAge != nil && arg2.Stream.Config.RetentionMaxAge.Value == 0 && arg2.Stream.Config.RetentionMaxBytes != nil && arg2.Stream.Config.RetentionMaxBytes.Value == 0 && arg2.Stream.Config.RetentionMaxMessages != nil && arg2.Stream.Config.RetentionMaxMessages.Value == 0
+//@   call CreateStream requires [cursors-stream-is-compacted] arg2.Stream.Config.CompactEnabled != nil && arg2.Stream.Config.CompactEnabled.Value
 // (the cache is purged only when this server BECOMES leader of a cursors partition: it may be consulted only while
 //  the server leads that partition - a former leader's entries predate stores accepted by its successor)
 //@ ghost var leadsCursorsPartition bool
